@@ -515,7 +515,7 @@ def nt(ctx, spec, rc, force=False):
 
 
 def shards(tier, seed):
-    n = 320 if tier == 'quick' else 19000
+    n = 320 if tier == 'quick' else 70000
     return [{'n': n} for _ in range(16)]
 
 
